@@ -511,8 +511,31 @@ pub fn run_random(rec: &mut Rec, seed: u64, run: u64, nops: usize, stable: bool)
                 ev.insert("dpre".into(), json!(dpre));
                 ev.insert("dpost".into(), json!(dpost));
             }
+            // ---------------------------------------------------------------- the direct withdrawal message
+            // (the entry point of token-factory LP denoms; with a cw20 LP token it has nothing to burn and must refuse
+            // whatever coin is attached: pool assets, amounts below and above the locked minimum liquidity)
+            92..=93 => {
+                last_minted = None;
+                let natives: Vec<String> = p.assets.iter().filter_map(|a| match a { A::Native(d) => Some(d.clone()), _ => None }).collect();
+                let amt = match r.gen_range(0..5) { 0 => 1, 1 => 999, 2 => 1000, 3 => 1001, _ => gen::amount(&mut r, total.max(2)) };
+                let u = p.user(ui);
+                let funds: Vec<Coin> = if natives.is_empty() { vec![] } else { vec![coin(amt, natives[r.gen_range(0..natives.len())].clone())] };
+                let dpre = p.w.digest();
+                let rs = p.w.exec(&u, &p.pair.clone(), &ExecuteMsg::WithdrawLiquidity {}, &funds);
+                let dpost = p.w.digest();
+                let refund = rs.attr("withdraw_liquidity", "refund_assets").unwrap_or("0, 0".into());
+                let parts: Vec<String> = refund.split(", ").map(lead_digits).collect();
+                ev.insert("ev".into(), json!("wdirect"));
+                ev.insert("actor".into(), json!(USERS[ui]));
+                ev.insert("args".into(), json!({"amt": s(amt)}));
+                ev.insert("res".into(), json!(rs.tag()));
+                ev.insert("err".into(), jerr(&rs.err()));
+                ev.insert("out".into(), json!({"refund": [parts.get(0).cloned().unwrap_or("0".into()), parts.get(1).cloned().unwrap_or("0".into())]}));
+                ev.insert("dpre".into(), json!(dpre));
+                ev.insert("dpost".into(), json!(dpost));
+            }
             // ---------------------------------------------------------------- donate
-            92..=95 => {
+            94..=96 => {
                 let a = r.gen_range(0..2usize);
                 let x = gen::amount(&mut r, (res[a] / 10).max(5));
                 let u = p.user(ui);
